@@ -191,6 +191,12 @@ class Deep(D):
                     target(m)
             elif cfg["call"] == "enable":
                 target(m, enable_call=en)
+            elif cfg["call"] == "ifelse":
+                # two mutually exclusive call sites of the same method in one transaction: it is called in every cycle
+                with m.If(en):
+                    target(m)
+                with m.Else():
+                    target(m)
             else:
                 target(m)
         return m
@@ -198,7 +204,7 @@ class Deep(D):
 
 def deep_configs(tier):
     out = []
-    for call, levels, dm in itertools.product(("plain", "if", "enable"), (1, 2), (False, True)):
+    for call, levels, dm in itertools.product(("plain", "if", "enable", "ifelse"), (1, 2), (False, True)):
         for nbo, nbi, nby in itertools.product((False, True), repeat=3):
             if tier == "quick" and (nbo, nbi, nby) not in ((True, True, False), (False, False, False), (True, False, True)):
                 continue
@@ -207,7 +213,7 @@ def deep_configs(tier):
             if not dm and nby:
                 continue
             out.append(dict(deep=True, call=call, levels=levels, deep_method=dm, nb_outer=nbo, nb_inner=nbi, nb_y=nby))
-            if call != "plain" and not dm:
+            if call in ("if", "enable") and not dm:
                 out.append(dict(deep=True, call=call, levels=levels, deep_method=dm, nb_outer=nbo, nb_inner=nbi, nb_y=nby, via=True))
     return out
 
@@ -224,8 +230,10 @@ def run_deep(cfg, ctx):
     if cfg["deep_method"]:
         pairs += [("y", "c0" if cfg["levels"] >= 2 else "b0"), ("d0", "y")]
     ctx.witness("deep: the innermost body can run", [B(pairs[-1][0])])
-    if cfg["call"] != "plain":
+    if cfg["call"] in ("if", "enable"):
         ctx.witness("deep: the caller runs while the call is disabled", [B("t"), o.sig("en") == 0])
+    if cfg["call"] == "ifelse":
+        ctx.witness("deep: the method runs through its second call site", [B("outer"), o.sig("en") == 0])
     P = lambda n: o.sig("p_" + n) == 1
     for child, parent in pairs:
         ctx.prove(f"deep: '{child}' (branch / method body) runs only if its enclosing body '{parent}' runs", [], z3.Implies(B(child), B(parent)), u)
@@ -236,8 +244,19 @@ def run_deep(cfg, ctx):
     for child, c in conds.items():
         if any(child == p[0] for p in pairs):
             ctx.prove(f"deep: branch '{child}' runs only if its condition holds", [], z3.Implies(B(child), o.sig(c) == 1), u)
-    if cfg["call"] != "plain":
+    if cfg["call"] in ("if", "enable"):
         ctx.prove("deep: the conditionally called method runs only when the call is enabled", [], z3.Implies(B("outer"), o.sig("en") == 1), u)
+    if cfg["call"] in ("plain", "ifelse"):
+        ctx.prove("deep: the method called on every path runs whenever its transaction runs", [], B("outer") == B("t"), u)
+    # blocking condition(): the enclosing body runs only together with its (single) branch
+    blocking = [("outer", "b0", cfg["nb_outer"])]
+    if cfg["levels"] >= 2:
+        blocking.append(("b0", "c0", cfg["nb_inner"]))
+    if cfg["deep_method"]:
+        blocking.append(("y", "d0", cfg["nb_y"]))
+    for parent, child, nb in blocking:
+        if not nb:
+            ctx.prove(f"deep: with a blocking condition '{parent}' runs only together with its branch '{child}'", [], z3.Implies(B(parent), B(child)), u)
 
 
 def configs(tier, seed):
